@@ -75,6 +75,7 @@ type ThreadProg struct {
 type TxnProg struct {
 	Ops   []Op `json:"ops"`
 	Abort bool `json:"abort,omitempty"` // the callback returns an error at the end
+	Panic bool `json:"panic,omitempty"` // ... or rather panics at the end (the client recovers): the transaction is neither committed nor rolled back
 }
 
 // Op is one operation inside a transaction body.
